@@ -169,6 +169,8 @@ class Gen:
         return f'{prefix}{self.n}'
 
     def add(self, item):
+        if 'ct' in item and self.rng.random() < self.p.get('p_np', 0.08):
+            item['np'] = True          # the cycle time is handed to the library as a numpy scalar
         self.order[item['id']] = len(self.items)
         self.items.append(item)
         return item['id']
